@@ -1151,6 +1151,8 @@ func c09Extras(caps amCaps) []corpusExtra {
 			"Panel.row": "elements+", "Panel.graph": "elements+", "Panel.Row": "elements+", "Panel.Graph": "elements+"}},
 		{"append-union-alias", mkAM(), v("", "  - array_to_append: {by_name: Panel.elements}\n  - disjunction_as_options: {by_name: Panel.elements}\n  - duplicate: {by_name: Panel.row, as: addRow}\n  - array_to_append: {by_name: Panel.items}\n  - duplicate: {by_name: Panel.items, as: addItem}\n"), nil},
 		{"multi-builder", mkAM(), v("  - duplicate: {by_object: Item, as: Thing}\n  - initialize: {by_name: Item, set: [{property: on, value: true}, {property: weight, value: 1.5}]}\n  - initialize: {by_name: Thing, set: [{property: on, value: true}, {property: weight, value: 2.5}]}\n", "  - omit: {by_name: Item.weight}\n  - omit: {by_name: Thing.weight}\n  - omit: {by_name: Item.on}\n  - omit: {by_name: Thing.on}\n"), nil},
+		// a generic builder kept next to a specialised one: only one of the two pins constants in its constructor
+		{"multi-builder-partial", mkAM(), v("  - duplicate: {by_object: Item, as: Thing}\n  - initialize: {by_name: Thing, set: [{property: on, value: true}, {property: weight, value: 2.5}]}\n", "  - omit: {by_name: Thing.weight}\n  - omit: {by_name: Thing.on}\n"), nil},
 		{"index-args", mkAM(), v("", "  - map_to_index: {by_name: Panel.byName}\n  - map_to_index: {by_name: Panel.limits}\n  - struct_fields_as_arguments: {by_name: Panel.leaf}\n  - struct_fields_as_arguments: {by_name: Panel.span}\n"), map[string]string{
 			"Panel.byName": "byName.", "Panel.limits": "limits.", "Panel.leaf": "leaf.name,leaf.weight,leaf.on", "Panel.span": "span.from,span.quick,span.to,span.marks"}},
 		{"ctor", mkAM(), v("  - promote_options_to_constructor: {by_object: Panel, options: [title, main, note]}\n  - initialize: {by_object: Item, set: [{property: on, value: true}]}\n", "  - struct_fields_as_options: {by_name: Panel.leaf}\n"), map[string]string{
